@@ -63,6 +63,8 @@ CHECKS["C02"] = dict(
     assumptions=["DiffContent (byte comparison of real files) is outside the claim", "edit histories are reduced to arbitrary (old,new) pairs: the diff keeps no state between runs"],
     obligations=[
         ob("VH_C02_samefile", {}, covers=["identical", "different"], bounds="all field values; linknames of 0..2 bytes"),
+        ob("VH_C02_resync", dict(NONE=0), covers=["differ-metadata", "unchanged"], bounds="model FS: first transfer, one of 9 mutations of the source (none, rewrite same/other size, touch, chmod to a symbolic mode, chown to a symbolic uid, delete, file->dir, chmod of a directory), second transfer", max_steps=5000000),
+        ob("VH_C02_resync", dict(NONE=1), covers=["differ-none"], bounds="the same with differencing disabled", max_steps=5000000),
     ],
 )
 
@@ -236,6 +238,10 @@ CHECKS["C10"] = dict(
         ob("VH_C10_filter", dict(NI=2, NE=0), covers=["incremental-class", "agreeing-class"], bounds="<=2 include patterns"),
         ob("VH_C10_filter", dict(NI=0, NE=2), covers=["incremental-class", "agreeing-class"], bounds="<=2 exclude patterns"),
         ob("VH_C10_filter", dict(NI=1, NE=1), covers=["agreeing-class"], bounds="<=1 include and <=1 exclude pattern"),
+        ob("VH_C10_glob", dict(NI=1, NE=0), covers=["done"], bounds="wildcard templates ('*' inside a component, '**' across components), concrete names from {a, b, ab}, <=1 include"),
+        ob("VH_C10_glob", dict(NI=0, NE=1), covers=["done"], bounds="wildcard templates, <=1 exclude"),
+        ob("VH_C10_glob", dict(NI=1, NE=1), T, covers=["done"], bounds="wildcard templates, <=1 include and <=1 exclude"),
+        ob("VH_C10_glob", dict(NI=2, NE=0), T, covers=["done"], bounds="wildcard templates, <=2 include (no mixed negation)"),
         ob("VH_C10_filter", dict(NI=2, NE=1), T, covers=["incremental-class", "agreeing-class"], bounds="<=2 include, <=1 exclude", max_paths=600000),
         ob("VH_C10_filter", dict(NI=1, NE=2), T, covers=["incremental-class", "agreeing-class"], bounds="<=1 include, <=2 exclude", max_paths=600000),
     ],
@@ -260,8 +266,8 @@ CHECKS["C16"] = dict(
     assumptions=["names are concrete (model-FS keys), chosen by the solver from a three-letter alphabet"],
     obligations=[
         ob("VH_C16_select", dict(NI=1, NE=1), pkg=COPY, covers=["agreeing-class", "on-demand-ancestor"], bounds="<=1 include and <=1 exclude pattern"),
-        ob("VH_C16_select", dict(NI=2, NE=0), pkg=COPY, covers=["agreeing-class", "incremental-class"], bounds="<=2 include patterns"),
-        ob("VH_C16_select", dict(NI=0, NE=2), T, pkg=COPY, covers=["agreeing-class", "incremental-class"], bounds="<=2 exclude patterns"),
+        ob("VH_C16_select", dict(NI=0, NE=2), pkg=COPY, covers=["agreeing-class", "incremental-class"], bounds="<=2 exclude patterns"),
+        ob("VH_C16_select", dict(NI=2, NE=0), T, pkg=COPY, covers=["agreeing-class", "incremental-class"], bounds="<=2 include patterns"),
         ob("VH_C16_select", dict(NI=1, NE=1, POP=1), T, pkg=COPY, covers=["agreeing-class", "populated-destination"], bounds="populated destination"),
     ],
 )
@@ -283,6 +289,7 @@ CHECKS["C04"] = dict(
     assumptions=["'once the stream is torn down' is modelled by the caller breaking the in-memory transport and cancelling the context when every goroutine is blocked", "one schedule only: liveness under other interleavings is not claimed"],
     obligations=[
         ob("VH_C04_faults", dict(K=8), Q, covers=["teardown-needed", "receive-success", "receive-failure", "send-success", "send-failure"], bounds="11 fault kinds x index 1..8"),
+        ob("VH_C04_backlog", dict(N=300), covers=["done"], bounds="large fan-out: 300 announced directories (both 128-slot receiver queues full), hasher or notify callback failing at its 1st or 2nd call, then teardown", max_steps=30000000),
         ob("VH_C04_faults", dict(K=14), T, covers=["teardown-needed", "receive-success", "receive-failure", "send-success", "send-failure"], bounds="11 fault kinds x index 1..14"),
     ],
 )
